@@ -887,6 +887,23 @@ def job_swing_run(arg):
         k = cur.index[cur.percent_expected_vote == 100][1]
         cur["results_gop"] = cur["results_gop"].astype(float)
         cur.loc[k, "results_gop"] = float("nan")
+    if seed % 4 == 2:
+        # the weighted median exactly at its boundary: the total weight T of the reporting units is odd and the units
+        # below the median weigh exactly (T - 1) / 2 - the median is still unique (the next unit), but an implementation
+        # that stops at "half of the weight, rounded down" stops one unit early (seeded change C05_I)
+        rep = cur[(cur.percent_expected_vote >= 100) & cur.geographic_unit_fips.isin(pre.geographic_unit_fips)]
+        bmap = pre.set_index("geographic_unit_fips").baseline_turnout
+        ids = rep.geographic_unit_fips.tolist()
+        w = np.array([int(bmap[i]) + 1 for i in ids], dtype=float)
+        c = rep.results_turnout.to_numpy(dtype=float)
+        ratio = (c - w) / w
+        order = np.argsort(ratio, kind="stable")
+        k = len(order) // 2
+        d = int(w[order[:k]].sum() + 1 - w[order[k:]].sum())
+        j = order[-1] if d >= 0 else order[0]
+        w_new = int(w[j] + abs(d))
+        pre.loc[pre.geographic_unit_fips == ids[j], "baseline_turnout"] = w_new - 1
+        cur.loc[cur.geographic_unit_fips == ids[j], "results_turnout"] = int(round((1 + ratio[j]) * w_new))
     try:
         calls = _swing_client_run(pre, cur, seed, estimator)
         hamlet_calls = _swing_client_run(*_hamletise(pre.copy(), cur.copy()), seed, estimator) if seed % 4 == 0 else []
